@@ -7,10 +7,12 @@ package storeh
 
 import (
 	"bytes"
+	"context"
 	"crypto/sha1"
 	"encoding/json"
 	"fmt"
 	"io"
+	"regexp"
 	"sort"
 	"strings"
 	"sync"
@@ -19,12 +21,14 @@ import (
 	"github.com/hashicorp/go-hclog"
 	memdb "github.com/hashicorp/go-memdb"
 	"github.com/hashicorp/raft"
+	"google.golang.org/protobuf/proto"
 
 	"github.com/hashicorp/consul/agent/consul/fsm"
 	"github.com/hashicorp/consul/agent/consul/state"
 	"github.com/hashicorp/consul/agent/consul/stream"
 	"github.com/hashicorp/consul/agent/structs"
 	"github.com/hashicorp/consul/api"
+	raftstorage "github.com/hashicorp/consul/internal/storage/raft"
 	"github.com/hashicorp/consul/types"
 )
 
@@ -68,8 +72,8 @@ func Name(u string) string {
 // ---------------------------------------------------------------- publisher that records
 
 type RecPublisher struct {
-	mu     sync.Mutex
-	Events int
+	mu      sync.Mutex
+	Events  int
 	Batches int
 }
 
@@ -113,8 +117,18 @@ func NewFSM(pub state.EventPublisher) *fsm.FSM {
 			}
 			return state.NewStateStoreWithEventPublisher(nil, pub)
 		},
-		StorageBackend: fsm.NullStorageBackend,
+		StorageBackend: newStorageBackend(logger),
 	})
+}
+
+// the real raft-backed resource storage backend, so that FSM.Snapshot / Restore work
+func newStorageBackend(logger hclog.Logger) *raftstorage.Backend {
+	b, err := raftstorage.NewBackend(nil, logger)
+	if err != nil {
+		panic(err)
+	}
+	go b.Run(context.Background())
+	return b
 }
 
 func (h *H) Store() *state.Store { return h.FSM.State() }
@@ -152,7 +166,7 @@ func toInt(v any) int64 {
 	}
 	return 0
 }
-func str(v any) string { s, _ := v.(string); return s }
+func str(v any) string   { s, _ := v.(string); return s }
 func boolean(v any) bool { b, _ := v.(bool); return b }
 
 func dirEnt(c M) structs.DirEntry {
@@ -446,7 +460,7 @@ var spewCfg = spew.ConfigState{Indent: " ", SortKeys: true, DisablePointerAddres
 func Dump(s *state.Store) string {
 	rows := []string{}
 	_ = s.WalkAllTables(func(table string, item any) bool {
-		rows = append(rows, table+"|"+spewCfg.Sdump(item))
+		rows = append(rows, table+"|"+strings.Join(strings.Fields(SpewString(item)), " "))
 		return true
 	})
 	sort.Strings(rows)
@@ -536,3 +550,60 @@ func (m *memSink) Write(p []byte) (int, error) { return m.buf.Write(p) }
 func (m *memSink) Close() error                { return nil }
 func (m *memSink) ID() string                  { return "verif" }
 func (m *memSink) Cancel() error               { m.cancel = true; return nil }
+
+// SpewString is the canonical text of an arbitrary value (sorted map keys, no addresses).
+// Protobuf messages carry runtime type information with cycles: they are rendered through the
+// deterministic wire encoding instead.
+func SpewString(v any) string {
+	if pm, ok := v.(proto.Message); ok {
+		b, err := proto.MarshalOptions{Deterministic: true}.Marshal(pm)
+		if err != nil {
+			return "proto-marshal-error:" + err.Error()
+		}
+		return fmt.Sprintf("proto %T %x", v, b)
+	}
+	return spewCfg.Sdump(v)
+}
+
+// Tables that hold no client-written object: rows are recomputed from the registrations and
+// config entries (on every write and on restore). Their Raft indexes are internal bookkeeping;
+// whatever a client can see of them is compared through the read battery instead.
+var derivedTables = map[string]bool{"usage": true, "kind-service-names": true, "mesh-topology": true, "gateway-services": true}
+
+// Strict disables every mask (used by the known-finding probes of C02).
+var Strict = false
+
+var gwKindRe = regexp.MustCompile(`ServiceKind: \(structs.GatewayServiceKind\) (\(len=\d+\) )?"[a-z]*"`)
+
+var idxRe = regexp.MustCompile(`(Index|CreateIndex|ModifyIndex): \(uint64\) \d+`)
+
+// DumpNorm is Dump with the Raft indexes of derived-table rows (and the index-table rows that
+// only describe derived tables) masked.
+func DumpNorm(s *state.Store) string {
+	rows := []string{}
+	_ = s.WalkAllTables(func(table string, item any) bool {
+		row := table + "|" + strings.Join(strings.Fields(SpewString(item)), " ")
+		if Strict {
+			rows = append(rows, row)
+			return true
+		}
+		if derivedTables[table] {
+			row = idxRe.ReplaceAllString(row, "$1: _")
+		}
+		if table == "gateway-services" {
+			row = gwKindRe.ReplaceAllString(row, "ServiceKind: _")
+		}
+		if u, ok := item.(*state.UsageEntry); ok && u.Count == 0 {
+			return true // a zero counter and an absent counter are the same count
+		}
+		if table == "index" {
+			if e, ok := item.(*state.IndexEntry); ok && derivedTables[e.Key] {
+				return true
+			}
+		}
+		rows = append(rows, row)
+		return true
+	})
+	sort.Strings(rows)
+	return strings.Join(rows, "\n")
+}
